@@ -36,15 +36,15 @@ verus! {
 //@lextern molar_isochoric_heat_capacity(L_State, Contributions) -> real
 //@lextern dp_dv(L_State, Contributions) -> real
 //@lextern dp_dt(L_State, Contributions) -> real
-//@lift feos-core/src/state/mod.rs State::new_nph name=nph_residual closure=f:x0:real ret=Result<(real,real,L_State),LErr>
+//@lift feos-core/src/state/mod.rs State::new_nph name=nph_residual closure=@newton.1:x0:real ret=Result<(real,real,L_State),LErr>
 //@end
-//@lift feos-core/src/state/mod.rs State::new_nps name=nps_residual closure=f:x0:real ret=Result<(real,real,L_State),LErr>
+//@lift feos-core/src/state/mod.rs State::new_nps name=nps_residual closure=@newton.1:x0:real ret=Result<(real,real,L_State),LErr>
 //@end
-//@lift feos-core/src/state/mod.rs State::new_nvu name=nvu_residual closure=f:x0:real ret=Result<(real,real,L_State),LErr>
+//@lift feos-core/src/state/mod.rs State::new_nvu name=nvu_residual closure=@newton.1:x0:real ret=Result<(real,real,L_State),LErr>
 //@end
-//@lift feos-core/src/state/mod.rs State::new_nth name=nth_residual closure=f:x0:real ret=Result<(real,real,L_State),LErr>
+//@lift feos-core/src/state/mod.rs State::new_nth name=nth_residual closure=@newton.1:x0:real ret=Result<(real,real,L_State),LErr>
 //@end
-//@lift feos-core/src/state/mod.rs State::new_nts name=nts_residual closure=f:x0:real ret=Result<(real,real,L_State),LErr>
+//@lift feos-core/src/state/mod.rs State::new_nts name=nts_residual closure=@newton.1:x0:real ret=Result<(real,real,L_State),LErr>
 //@end
 
 /// (p, h): the iterate is the temperature at the specified pressure and amounts; residual h(state) - h, slope c_p
